@@ -689,7 +689,7 @@ func (c *FuncCtx) assumeInv(st *State, li *loopInfo, inv []*Clause) {
 	defer func() { c.loopEntry = saved }()
 	for _, cl := range inv {
 		v := c.evalSpecAt(st, cl.Expr, li.pos, li.extra)
-		st.assume(v.S)
+		st.assume(v.forAssume())
 	}
 	// vacuity guard: the loop head (invariants assumed) must be reachable
 	if !c.coveredLoops[li.ord] && c.contract != nil {
